@@ -360,7 +360,7 @@ Fixpoint list_eqb {A} (eq : A -> A -> bool) (a b : list A) : bool :=
   match a, b with [], [] => true | x :: a', y :: b' => eq x y && list_eqb eq a' b' | _, _ => false end.
 Definition row_eqb := list_eqb oz_eqb.
 Inductive res := RErr | RCell (x y : Z) (v : cellv) | RVal (v : cellv) | RMat (m : list (list cellv))
-  | RRows (l : list (Z * list cellv)) | RCols (l : list (Z * Z)) | RList (l : list cellv) | RXV (x : Z) (v : cellv).
+  | RRows (l : list (Z * list cellv)) | RCols (l : list (Z * Z)) | RList (l : list cellv) | RXV (x : Z) (v : cellv) | RFlat (l : list cellv).
 Definition res_eqb (a b : res) : bool :=
   match a, b with
   | RErr, RErr => true
@@ -370,6 +370,7 @@ Definition res_eqb (a b : res) : bool :=
   | RRows l, RRows l' => list_eqb (fun p q => (fst p =? fst q) && row_eqb (snd p) (snd q)) l l'
   | RCols l, RCols l' => list_eqb (fun p q => (fst p =? fst q) && (snd p =? snd q)) l l'
   | RList l, RList l' => row_eqb l l'
+  | RFlat l, RFlat l' => row_eqb l l'
   | RXV x v, RXV x' v' => (x =? x') && oz_eqb v v'
   | _, _ => false
   end.
@@ -378,7 +379,8 @@ Inductive tcall :=
 | GetCells (c : option coordarg) | GetRows (c : option coordarg) | GetColumns (c : option coordarg)
 | GetRow (y : anyarg) | GetRowValues (y : anyarg) | GetColumn (x : anyarg) | GetColumnValues (x : anyarg) | GetColumnCells (x : anyarg)
 | RowGetCell (j : Z) (x : anyarg) | RowGetValue (j : Z) (x : anyarg) | RowGetValues (j : Z) (c : option coordarg) | RowGetCells (j : Z) (c : option coordarg)
-| IsRowEmpty (y : anyarg) | IsColumnEmpty (x : anyarg).
+| IsRowEmpty (y : anyarg) | IsColumnEmpty (x : anyarg)
+| GetValuesFlat (c : option coordarg) | GetCellsFlat (c : option coordarg).
 Definition all_none (l : list cellv) : bool := forallb (fun v => match v with None => true | Some _ => false end) l.
 Definition b2v (b : bool) : cellv := Some (if b then 1 else 0).
 Definition ores {A} (o : option A) (f : A -> res) : res := match o with Some a => f a | None => RErr end.
@@ -401,6 +403,8 @@ Definition expected (cols : list Z) (g : grid) (c : tcall) : res :=
   | RowGetValues j c | RowGetCells j c => ores (row_get_values (the_row g j) c) RList
   | IsRowEmpty y => ores (translate_from_any y h 1) (fun y' => RVal (b2v (all_none (the_row g y'))))
   | IsColumnEmpty x => ores (table_get_column w g x) (fun r => RVal (b2v (all_none (snd r))))
+  | GetValuesFlat c => ores (table_get_values w g c) (fun m => RFlat (concat m))
+  | GetCellsFlat c => ores (table_get_cells w g c) (fun m => RFlat (concat m))
   end.
 Definition le_o (a : option Z) (b : Z) := match a with Some a' => a' <=? b | None => true end.
 Definition ge_o (a : option Z) (b : Z) := match a with Some a' => b <=? a' | None => true end.
@@ -413,6 +417,9 @@ Definition in_bounds (b : quad) (r : res) : bool :=
   | RCols l => forallb (fun p => le_o x (fst p) && ge_o z (fst p)) l
   | RMat m => span_o y t (lenZ m) && forallb (fun r => span_o x z (lenZ r)) m
   | RList l => span_o x z (lenZ l)
+  | RFlat l => match y, t, x, z with
+               | Some y', Some t', Some x', Some z' => lenZ l <=? Z.max 0 (t' - y' + 1) * Z.max 0 (z' - x' + 1)
+               | _, _, _, _ => true end
   | _ => true
   end.
 (* 1: two forms of the same address return different cells   4: a range does not bound the result
@@ -431,7 +438,8 @@ Definition chk (c : case_t) : nat :=
 '''
 
 READERS = ["GetCell", "GetValue", "GetValues", "IterValues", "GetCells", "GetRows", "GetColumns", "GetRow", "GetRowValues",
-           "GetColumn", "GetColumnValues", "GetColumnCells", "RowGetCell", "RowGetValue", "RowGetValues", "RowGetCells", "IsRowEmpty", "IsColumnEmpty"]
+           "GetColumn", "GetColumnValues", "GetColumnCells", "RowGetCell", "RowGetValue", "RowGetValues", "RowGetCells", "IsRowEmpty", "IsColumnEmpty",
+           "GetValuesFlat", "GetCellsFlat"]
 
 
 def neg_variants(rng, comps, lens):
@@ -472,7 +480,7 @@ def gen_read_case(rng, tier, fixed=None):
                  ("t", neg_variants(rng, [x, y], [w, h]))]
         if w == 0:
             forms.append(("t", [-rng.randint(1, 3), -rng.randint(1, 3)] if x == 0 and y == 0 else [x, y]))
-    elif m in ("GetValues", "IterValues", "GetCells"):
+    elif m in ("GetValues", "IterValues", "GetCells", "GetValuesFlat", "GetCellsFlat"):
         kind = pick(7)
         if kind == 0:
             forms = [("s", cell_name(x, y) + ":" + cell_name(zz, t)), ("t", [x, y, zz, t]), ("t", neg_variants(rng, [x, y, zz, t], [w, h, w, h])),
@@ -623,6 +631,8 @@ def res_term(kind, r):
         return "(RCols [%s])" % ";".join("(%s, %s)" % (z(a), z(b)) for a, b in v)
     if kind == "list":
         return "(RList %s)" % ozl(v)
+    if kind == "flat":
+        return "(RFlat %s)" % ozl(v)
     if kind == "xv":
         return "(RXV %s %s)" % (z(v[0]), oz(v[1]))
     raise KeyError(kind)
@@ -636,7 +646,7 @@ def col_id(c):
 def do_read(t, m, j, f):
     """one reader call on table t with the form f; returns (Coq call term, Coq result term)"""
     a = form_py(f)
-    ot = oform_term(f) if (f is None or f[0] == "t" or m in ("GetValues", "IterValues", "GetCells", "GetRows", "GetColumns", "RowGetValues", "RowGetCells")) else None
+    ot = oform_term(f) if (f is None or f[0] == "t" or m in ("GetValues", "IterValues", "GetCells", "GetRows", "GetColumns", "RowGetValues", "RowGetCells", "GetValuesFlat", "GetCellsFlat")) else None
     if m == "GetCell":
         r = guarded(lambda: (lambda c: (c.x, c.y, val(c.value)))(t.get_cell(a)))
         return "GetCell %s" % form_term(f), res_term("cell", r), ("cell", r)
@@ -673,6 +683,12 @@ def do_read(t, m, j, f):
     if m == "GetColumnCells":
         r = guarded(lambda: [val(c.value) if c is not None else None for c in t.get_column_cells(a)])
         return "GetColumnCells %s" % any_term(f), res_term("list", r), ("list", r)
+    if m == "GetValuesFlat":
+        r = guarded(lambda: [val(v) for v in t.get_values(a, flat=True)])
+        return "GetValuesFlat %s" % ot, res_term("flat", r), ("flat", r)
+    if m == "GetCellsFlat":
+        r = guarded(lambda: [val(c.value) for c in t.get_cells(a, flat=True)])
+        return "GetCellsFlat %s" % ot, res_term("flat", r), ("flat", r)
     if m == "IsRowEmpty":
         r = guarded(lambda: 1 if t.is_row_empty(a) else 0)
         return "IsRowEmpty %s" % any_term(f), res_term("val", r), ("val", r)
